@@ -143,3 +143,21 @@ Proof.
   apply mapM_Forall2 in E. induction E as [|x y xs ys Hxy _ IH]; [reflexivity|].
   cbn [map]. rewrite IH. f_equal. exact (canon_eval fuel x y Hxy dv sv).
 Qed.
+
+(* Idempotence.  Python has no fuel: "canonicalize_expr(r) terminates and returns r" is
+   "there is a recursion budget f0 with canonicalize_expr f0 r = Some r".  The result of a terminating
+   run is such a fixed point (the function only returns an expression it has just seen unchanged). *)
+Theorem canon_idempotent fuel : forall e r,
+  canonicalize_expr fuel e = Some r ->
+  exists f0, (f0 <= fuel)%nat /\ canonicalize_expr f0 r = Some r.
+Proof.
+  induction fuel as [|f IH]; intros e r H; [discriminate H|].
+  cbn [canonicalize_expr] in H. destruct (is_EBin e) eqn:Eb.
+  - destruct (canonicalize_binary_op f e) as [n|] eqn:En; [|discriminate H].
+    destruct (aexpr_eqb n e) eqn:Eq.
+    + injection H as <-. apply aexpr_eqb_eq in Eq. subst n. exists (S f). split; [lia|].
+      cbn [canonicalize_expr]. rewrite Eb, En, aexpr_eqb_refl. reflexivity.
+    + destruct (IH n r H) as [f0 [Hle Hf0]]. exists f0. split; [lia|exact Hf0].
+  - rewrite aexpr_eqb_refl in H. injection H as <-. exists (S f). split; [lia|].
+    cbn [canonicalize_expr]. rewrite Eb, aexpr_eqb_refl. reflexivity.
+Qed.
